@@ -338,6 +338,15 @@ func (c *collector) record(caseJSON []byte, classes []string, nontrivial bool) {
 	}
 }
 
+// bump counts an observation made while checking (e.g. "the call reported an error").
+func (c *collector) bump(class string) {
+	c.mu.Lock()
+	if !c.frozen {
+		c.Classes[class]++
+	}
+	c.mu.Unlock()
+}
+
 func (c *collector) exclude(what string) {
 	c.mu.Lock()
 	if !c.frozen {
